@@ -345,6 +345,12 @@ func TestVerif_C20(t *testing.T) {
 			}
 			for p, d := range extras {
 				pre1[p], pre2[p] = d, d
+				// the snapshot directories holding extras exist in PRE2 as well
+				for q := path.Dir(p); q != "/"; q = path.Dir(q) {
+					if _, ok := tree.entries[q]; ok {
+						pre2[q] = true
+					}
+				}
 			}
 			type preT struct {
 				name    string
